@@ -303,6 +303,10 @@ def run(ctx):
             g2.types = mod2['types']
             g2.pending = {}
             for (tn, t1), (_, t2) in zip(mod1['types'], mod2['types']):
+                reg = X.finding_region(codec, mod1, t1) or X.finding_region(codec, mod2, t2)
+                if reg:
+                    ctx.count('c07:%s:in-known-finding-region:%s' % (codec, reg))
+                    continue
                 for _ in range(2):
                     # forward: V2 value under V1
                     v2 = g2.gen_value(t2)
